@@ -612,7 +612,7 @@ Qed.
 
 (* ------------------------------------------------------------------ totality *)
 
-Lemma history_issues_ok root s id : exists l, history_issues root s id = Ok l.
+Lemma history_issues_ok v root s id : exists l, history_issues v root s id = Ok l.
 Proof.
   unfold history_issues. destruct (with_tag GTransition (kids_el s)) as [|t [|t2 r]]; try (eexists; reflexivity).
   destruct (ga_target (e_attrs t)) as [tg|].
@@ -625,7 +625,7 @@ Proof.
   unfold state_step. destruct acc as [issues seen].
   destruct (ga_id (e_attrs s)) as [[|b i]|]; try (eexists; reflexivity).
   - destruct (gtag_eqb (e_tag s) GHistory).
-    + destruct (history_issues_ok root s (b :: i)) as (lh & ->). simpl.
+    + destruct (history_issues_ok v root s (b :: i)) as (lh & ->). simpl.
       destruct (seen_find seen (b :: i)); eexists; reflexivity.
     + simpl. destruct (seen_find seen (b :: i)); eexists; reflexivity.
   - destruct (gtag_eqb (e_tag s) GFinal); eexists; reflexivity.
@@ -728,15 +728,15 @@ Qed.
 Lemma no_fatal_app a b : no_fatal (a ++ b) = no_fatal a && no_fatal b.
 Proof. unfold no_fatal. apply forallb_app. Qed.
 
-Definition hist_clean (root s : el) : Prop :=
+Definition hist_clean (v : vvariant) (root s : el) : Prop :=
   gtag_eqb (e_tag s) GHistory = true ->
   forall id, ga_id (e_attrs s) = Some id ->
-  exists hi, history_issues root s id = Ok hi /\ no_fatal hi = true.
+  exists hi, history_issues v root s id = Ok hi /\ no_fatal hi = true.
 
 Lemma state_loop_sound v root reach : forall l iss0 seen0 iss seen,
   foldM (state_step v root reach) l (iss0, seen0) = Ok (iss, seen) -> no_fatal iss = true ->
   no_fatal iss0 = true /\ seen = seen0 ++ keyed l /\
-  (forall s, In s l -> hist_clean root s) /\
+  (forall s, In s l -> hist_clean v root s) /\
   (forall s, In s l -> ga_id (e_attrs s) = None -> gtag_eqb (e_tag s) GFinal = true \/ vv_id_required v = false) /\
   (nodup_bytes (map fst seen0) = true -> nodup_bytes (map fst seen) = true) /\
   (forallb nonempty (map fst seen0) = true -> forallb nonempty (map fst seen) = true).
@@ -749,7 +749,7 @@ Proof.
     unfold state_step in Hs.
     destruct (ga_id (e_attrs s)) as [[|b i]|] eqn:Ei.
     + inversion Hs; subst. rewrite no_fatal_app in Hnf1. simpl in Hnf1. rewrite andb_false_r in Hnf1. discriminate.
-    + destruct (if gtag_eqb (e_tag s) GHistory then history_issues root s (b :: i) else Ok []) as [hi| |] eqn:Hhi;
+    + destruct (if gtag_eqb (e_tag s) GHistory then history_issues v root s (b :: i) else Ok []) as [hi| |] eqn:Hhi;
         simpl in Hs; try discriminate.
       destruct (seen_find seen0 (b :: i)) eqn:Hf.
       * inversion Hs; subst. rewrite !no_fatal_app in Hnf1. simpl in Hnf1.
@@ -794,7 +794,7 @@ Qed.
 (* and conversely *)
 Lemma state_loop_complete v root reach : forall l iss0 seen0,
   no_fatal iss0 = true ->
-  (forall s, In s l -> hist_clean root s) ->
+  (forall s, In s l -> hist_clean v root s) ->
   (forall s, In s l -> ga_id (e_attrs s) = None -> gtag_eqb (e_tag s) GFinal = true \/ vv_id_required v = false) ->
   nodup_bytes (map fst seen0 ++ ids_of l) = true ->
   forallb nonempty (ids_of l) = true ->
@@ -803,12 +803,12 @@ Proof.
   induction l as [|s l IH]; intros iss0 seen0 Hnf Hh Hid Hnd Hne.
   - exists iss0. simpl. rewrite app_nil_r. auto.
   - cbn [foldM]. unfold state_step at 1.
-    assert (forall s', In s' l -> hist_clean root s') as Hh' by (intros; apply Hh; right; auto).
+    assert (forall s', In s' l -> hist_clean v root s') as Hh' by (intros; apply Hh; right; auto).
     assert (forall s', In s' l -> ga_id (e_attrs s') = None -> gtag_eqb (e_tag s') GFinal = true \/ vv_id_required v = false) as Hid'
         by (intros; apply Hid; auto; right; auto).
     destruct (ga_id (e_attrs s)) as [[|b i]|] eqn:Ei.
     + exfalso. unfold ids_of in Hne. simpl in Hne. rewrite Ei in Hne. simpl in Hne. discriminate.
-    + assert (exists hi, (if gtag_eqb (e_tag s) GHistory then history_issues root s (b :: i) else Ok []) = Ok hi /\ no_fatal hi = true)
+    + assert (exists hi, (if gtag_eqb (e_tag s) GHistory then history_issues v root s (b :: i) else Ok []) = Ok hi /\ no_fatal hi = true)
         as (hi & Hhi & Hnhi).
       { destruct (gtag_eqb (e_tag s) GHistory) eqn:Et; [|exists []; auto]. apply (Hh s); auto. left; auto. }
       rewrite Hhi. cbn [bind].
@@ -1139,6 +1139,7 @@ Proof.
 Qed.
 
 Definition hist_scope (h x : el) : bool :=
+  negb (is_pseudo_tag (e_tag x)) &&
   if ga_deep (e_attrs h)
   then match parent_path (e_path h) with Some pp => is_desc (e_path x) pp | None => false end
   else optptr_eqb (parent_path (e_path x)) (parent_path (e_path h)).
@@ -1185,11 +1186,14 @@ Section History.
     unfold root_el in E. inversion E.
   Qed.
 
+  Variable v : vvariant.
+  Hypothesis Hhp : vv_hist_pseudo_target_unchecked v = false.
+
   Lemma history_clause h id :
     In h all -> wf_targets d = true ->
-    exists hi, history_issues root h id = Ok hi /\ no_fatal hi = hist_body d h.
+    exists hi, history_issues v root h id = Ok hi /\ no_fatal hi = hist_body d h.
   Proof.
-    intros Hh Hwt. unfold history_issues, hist_body.
+    intros Hh Hwt. unfold history_issues, hist_body. rewrite Hhp. cbn [negb andb].
     destruct (with_tag GTransition (kids_el h)) as [|t [|t2 r]] eqn:Ht.
     - eexists; split; reflexivity.
     - assert (In t all) as Htall.
@@ -1211,7 +1215,8 @@ Section History.
         simpl in Hres. apply andb_true_iff in Hres as [Hr1 Hr2].
         rewrite flat_map_app, no_fatal_app, (IH Hr2). f_equal.
         destruct (resolve d i) as [x|]; [|discriminate]. simpl. rewrite app_nil_r.
-        unfold hist_scope. destruct (ga_deep (e_attrs h)).
+        unfold hist_scope. rewrite no_fatal_app. destruct (is_pseudo_tag (e_tag x)); [reflexivity|]. cbn [negb andb no_fatal forallb].
+        destruct (ga_deep (e_attrs h)).
         * destruct (parent_path (e_path h)); simpl; [destruct (is_desc (e_path x) p)|]; reflexivity.
         * destruct (optptr_eqb (parent_path (e_path x)) (parent_path (e_path h))); reflexivity.
       + cbn [bind]. eexists. split; [reflexivity|]. rewrite !no_fatal_app. simpl. rewrite !andb_false_r. reflexivity.
@@ -1220,7 +1225,7 @@ Section History.
 
   Lemma clause_history :
     wf_targets d = true ->
-    ((forall s, In s allStates -> hist_clean root s) <-> wf_history d = true).
+    ((forall s, In s allStates -> hist_clean v root s) <-> wf_history d = true).
   Proof.
     intros Hwt. rewrite wf_history_unfold. fold root. fold all. rewrite forallb_forall. split.
     - intros H h Hh. destruct (ga_id (e_attrs h)) as [id|] eqn:Ei; auto.
@@ -1246,14 +1251,14 @@ Proof. reflexivity. Qed.
 Definition repaired_structure (v : vvariant) : Prop :=
   vv_any_parallel_ancestor v = false /\ vv_root_initial_unchecked v = false /\
   vv_initial_target_optional v = false /\ vv_nesting_warning_only v = false /\
-  vv_empty_initial_unchecked v = false.
+  vv_empty_initial_unchecked v = false /\ vv_hist_pseudo_target_unchecked v = false.
 
 Lemma static_issues_no_fatal v d :
   repaired_structure v ->
   no_fatal (static_issues v d (keyed (all_states_of (descendants (root_el d))))) =
   wf_targets d && wf_initattr d && wf_target_sets d && wf_initial_el d && wf_nesting d.
 Proof.
-  intros (H1 & H2 & H3 & H4 & H5). unfold static_issues.
+  intros (H1 & H2 & H3 & H4 & H5 & _). unfold static_issues.
   set (seen := keyed _). set (all := descendants (root_el d)).
   rewrite no_fatal_app. unfold seen, all. rewrite clause_targets.
   rewrite no_fatal_app.
@@ -1284,7 +1289,7 @@ Proof.
   unfold wf_chartb. rewrite wf_ids_unfold, Hnd.
   replace (forallb (fun i => nonempty i) _) with true by (symmetry; exact Hne).
   rewrite H2, H1, H0, H, Hn2. cbn [andb].
-  rewrite andb_true_r. apply clause_history; auto.
+  rewrite andb_true_r. apply (clause_history d H Hsm Hpl Hnd v); [apply Hrep | auto | auto].
 Qed.
 
 Theorem validate_complete_lemma v d :
@@ -1301,7 +1306,7 @@ Proof.
   destruct (get_reachable_states_spec v d) as [(reach & ->)|[_ E]]; [|congruence]. cbn [bind].
   destruct (state_loop_complete v (root_el d) reach (all_states_of (descendants (root_el d))) [] []) as (iss & Hfold & Hnf).
   - reflexivity.
-  - apply clause_history; auto.
+  - apply (clause_history d Hnest Hsm Hpl Hnd v); [apply Hrep | auto | auto].
   - intros s _ _. right. exact Hidr.
   - exact Hnd.
   - exact Hne.
@@ -1350,6 +1355,10 @@ Definition wit_nesting : gdoc :=
 Definition wit_empty_initial : gdoc :=
   GNode GScxml (with_initial []) [state_ s1 []].
 
+(* <state id="s1"><history id="s2"><transition target="s2"/></history><state id="s3"><transition target="s2"/></state></state> *)
+Definition wit_hist_self : gdoc :=
+  scxml_ [state_ s1 [GNode GHistory (with_id s2) [tr_to [s2]]; state_ s3 [tr_to [s2]]]].
+
 Definition accepted_not_wf (v : vvariant) (d : gdoc) : Prop :=
   single_machine d = true /\ plain_ids d = true /\ wf_root d = true /\
   exists l, validate v d = Ok l /\ no_fatal l = true /\ wf_chartb d = false.
@@ -1364,25 +1373,31 @@ Lemma pinned_sound_refuted_nesting : accepted_not_wf vv_pinned wit_nesting.
 Proof. repeat split. eexists. vm_compute. repeat split. Qed.
 Lemma pinned_sound_refuted_empty_initial : accepted_not_wf vv_pinned wit_empty_initial.
 Proof. repeat split. eexists. vm_compute. repeat split. Qed.
+Lemma pinned_sound_refuted_hist_self : accepted_not_wf vv_pinned wit_hist_self.
+Proof. repeat split. eexists. vm_compute. repeat split. Qed.
+(* the repaired validator reports it *)
+Lemma hist_self_rejected : exists l, validate vv_fixed wit_hist_self = Ok l /\ no_fatal l = false.
+Proof. eexists. vm_compute. split; reflexivity. Qed.
 
 (* each single switch is enough to lose soundness *)
 Definition only (f : vvariant -> vvariant) := f vv_fixed.
 Lemma each_switch_matters :
   accepted_not_wf {| vv_getstates_null := false; vv_any_parallel_ancestor := true; vv_root_initial_unchecked := false;
                      vv_initial_target_optional := false; vv_id_required := false; vv_nesting_warning_only := false;
-                     vv_empty_initial_unchecked := false |} wit_any_parallel /\
+                     vv_empty_initial_unchecked := false; vv_hist_pseudo_target_unchecked := false |} wit_any_parallel /\
   accepted_not_wf {| vv_getstates_null := false; vv_any_parallel_ancestor := false; vv_root_initial_unchecked := true;
                      vv_initial_target_optional := false; vv_id_required := false; vv_nesting_warning_only := false;
-                     vv_empty_initial_unchecked := false |} wit_root_initial /\
+                     vv_empty_initial_unchecked := false; vv_hist_pseudo_target_unchecked := false |} wit_root_initial /\
   accepted_not_wf {| vv_getstates_null := false; vv_any_parallel_ancestor := false; vv_root_initial_unchecked := false;
                      vv_initial_target_optional := true; vv_id_required := false; vv_nesting_warning_only := false;
-                     vv_empty_initial_unchecked := false |} wit_initial_no_target /\
+                     vv_empty_initial_unchecked := false; vv_hist_pseudo_target_unchecked := false |} wit_initial_no_target /\
   accepted_not_wf {| vv_getstates_null := false; vv_any_parallel_ancestor := false; vv_root_initial_unchecked := false;
                      vv_initial_target_optional := false; vv_id_required := false; vv_nesting_warning_only := true;
-                     vv_empty_initial_unchecked := false |} wit_nesting /\
+                     vv_empty_initial_unchecked := false; vv_hist_pseudo_target_unchecked := false |} wit_nesting /\
   accepted_not_wf {| vv_getstates_null := false; vv_any_parallel_ancestor := false; vv_root_initial_unchecked := false;
                      vv_initial_target_optional := false; vv_id_required := false; vv_nesting_warning_only := false;
-                     vv_empty_initial_unchecked := true |} wit_empty_initial.
+                     vv_empty_initial_unchecked := true; vv_hist_pseudo_target_unchecked := false |} wit_empty_initial /\
+  accepted_not_wf vv_hist_unchecked wit_hist_self.
 Proof. repeat split; try (eexists; vm_compute; repeat split). Qed.
 
 (* a state-less document is accepted by either variant (validation has no such check) *)
@@ -1478,11 +1493,15 @@ Lemma legal_completion_pinned_refuted_syntactic :
   (length wit_ap_targets <? 2) || pairwise_compatible wit_ap_targets = false.
 Proof. split; vm_compute; reflexivity. Qed.
 
-(* the side condition plain_ids of validate_sound is needed: getState also finds <initial id="s3">, which lies in the
+(* the side condition plain_ids of validate_sound is needed as long as pseudo-state targets of a history's default
+   transition are not reported (vv_hist_unchecked): getState also finds <initial id="s3">, which lies in the
    shallow scope of the history although the state s3 is a grand-child *)
 Definition wit_initial_id : gdoc :=
   scxml_ [state_ s1 [GNode GInitial (with_id s3) [tr_to [s2]]; hist_ s5 false s3; state_ s2 [state_ s3 []]]].
 Lemma sound_needs_plain_ids :
   single_machine wit_initial_id = true /\ plain_ids wit_initial_id = false /\
-  exists l, validate vv_fixed wit_initial_id = Ok l /\ no_fatal l = true /\ wf_chartb wit_initial_id = false.
+  exists l, validate vv_hist_unchecked wit_initial_id = Ok l /\ no_fatal l = true /\ wf_chartb wit_initial_id = false.
 Proof. split; [reflexivity|]. split; [reflexivity|]. eexists. vm_compute. repeat split. Qed.
+(* with the check of patches/C19-history-default-pseudo-target.diff this witness is reported (the target is an <initial> element) *)
+Lemma initial_id_rejected : exists l, validate vv_fixed wit_initial_id = Ok l /\ no_fatal l = false.
+Proof. eexists. vm_compute. split; reflexivity. Qed.
